@@ -87,6 +87,17 @@ def scenarios(sh, rng, mk, hid):
         else:
             t = Table(None, columns=[Column('a', 'int')])
             expect(sh, f'table-no-name|{how}|table.sql', AME, lambda: t.sql, case, hid)
+        # the same for a table flagged abstract (the flag only changes how the body is laid out)
+        db, case = fresh()
+        if how == 'set-none':
+            t = rng.choice(db.tables)
+            t.abstract = True
+            t.name = None
+            expect(sh, f'table-no-name|{how}-abstract|table.sql', AME, lambda: t.sql, case, hid)
+            expect(sh, f'table-no-name|{how}-abstract|db.sql', AME, lambda: db.sql, case, hid)
+        else:
+            t = Table(None, columns=[Column('a', 'int')], abstract=True)
+            expect(sh, f'table-no-name|{how}-abstract|table.sql', AME, lambda: t.sql, case, hid)
         # column without name / type
         for attr in ('name', 'type'):
             db, case = fresh()
@@ -258,6 +269,22 @@ def scenarios(sh, rng, mk, hid):
     t2 = rng.choice(db.tables)
     db.delete(t2)
     expect(sh, 'get_refs|table-deleted-from-db', UDE, lambda: t2.get_refs(), case, hid)
+    # deleted by handing in an EQUAL table of another database: the table that left the list is the detached one
+    db, case = fresh()
+    dbtwin, _ = mk()
+    k = rng.randrange(len(db.tables))
+    real, twin = db.tables[k], dbtwin.tables[k]
+    if real == twin and db.tables.index(twin) == k:
+        db.delete(twin)
+        if not any(x is real for x in db.tables):
+            sh.count('class.deleted_via_equal_copy')
+            expect(sh, 'get_refs|table-deleted-via-equal-copy', UDE, lambda: real.get_refs(), case, hid)
+            expect(sh, 'get_refs|column-of-table-deleted-via-equal-copy', UDE, lambda: real.columns[0].get_refs(), case, hid)
+            # the twin still belongs to its own, untouched database
+            try:
+                twin.get_refs(), twin.sql
+            except Exception as e:  # noqa
+                sh.violation('refuse', 'raised-on-consistent:twin-after-delete-by-equality', f'{type(e).__name__}: {e}', case, {'host': hid})
     db, case = fresh()
     t3 = rng.choice(db.tables)
     c3 = t3.columns[0]
